@@ -184,7 +184,7 @@ def run(ctx):
     it = Interp(p)
     it.type_hints[t] = "some.Unsupported"
     r = it.call_function(f, [t], {}, None)
-    raised = [x for x in it.raises if x.func == f.qualname]
+    raised = list(it.raises)  # the raise may sit in a helper the scalar branch delegates to
     ctx.expect(bool(raised) and fname(T.to_term(r)) == "ite" and T.to_term(r).args[2] == op("never"), "R17.2",
                "to_datetime_utc[unsupported type]", "an unsupported scalar type raises instead of returning a value",
                f.loc(), derived=T.to_term(r))
